@@ -3,6 +3,9 @@ package world
 import (
 	"testing"
 
+	"github.com/ontio/ontology-crypto/keypair"
+	"github.com/polynetwork/poly/core/types"
+
 	"github.com/polynetwork/poly/native/service/utils"
 )
 
@@ -20,5 +23,24 @@ func TestPersistKeepsState(t *testing.T) {
 	_ = r
 	if len(w.Dump()) == 0 {
 		t.Fatalf("empty dump")
+	}
+}
+
+// the reference address derivation agrees with the node's on the unchanged tree (sanity of the harness, not a check)
+func TestRefAddresses(t *testing.T) {
+	for n := 1; n <= 9; n++ {
+		var pubs []keypair.PublicKey
+		for _, a := range Accts(0, n) {
+			pubs = append(pubs, a.PublicKey)
+			if RefKeyAddress(a.PublicKey) != a.Address {
+				t.Fatalf("single-key address differs for account")
+			}
+		}
+		if n > 1 {
+			want, err := types.AddressFromMultiPubKeys(pubs, n-(n-1)/3)
+			if err != nil || want != OperatorAddress(pubs) {
+				t.Fatalf("n=%d: operator address differs: %v", n, err)
+			}
+		}
 	}
 }
